@@ -84,6 +84,11 @@ def run(an: Analysis, rep):
     rep.rule("R10.3", "-128 <-> None sentinel applied iff linetable", 4)
     rep.rule("R10.4", "byte pairing (unsigned, signed), stride 2", 4)
     format_rules(an, rep)
+    from .common import SharedRules, purity, truthiness_rule
+    from . import c01
+    rep.run(purity, an, rep, "R10.P", ["from_code", "to_code"])
+    rep.run(c01.r015_order, an, SharedRules(rep, "R10.O", "the shift by the first line number covers every line of the mapping, the trailing entry included (shared with C01's R01.5)"))
+    rep.run(truthiness_rule, an, rep, "R10.T", ["from_code", "to_code"], [("Instruction", "line_number"), ("AdditionalLine", "line")])
     rep.assumptions += ["format limits as in Objects/lnotab_notes.txt (reference/contracts.py LINE_LIMITS)"]
     rep.extra["not_decided"] = "table arithmetic (items_to_mapping, mapping_to_items, cursor logic, zero-width entries, no-line runs, trailing entries)"
 
